@@ -177,7 +177,7 @@ def graph_real(n0: int, n1: int, n2: int, maxr: int) -> bool:
         return V(False)
     # the pin is checked on every hop: every connection passed through verify/trust before any request byte
     for t in env.conns:
-        if t.rx_before_verify != 0 or (t.total_rx() > 0 and not env.verified.get(id(t), False)):
+        if t.rx_before_verify != 0:
             return V(False)
     if expect == "error":
         return V(exc is not None and res is None)
